@@ -1,11 +1,14 @@
 (* Correspondence checker for C05: co_iter, crop in three modes, mapping. *)
-From PV Require Import Model.Timeline.
+From PV Require Import Check.AnnCommon.
 Definition pairs := list (seg * seg).
-Record case := K { c_eps : Z; c_t : list seg; c_other : list seg; c_sup : sup;
-                   o_coiter : pairs;
-                   o_loose : list seg; o_strict : list seg; o_inter : list seg;
-                   o_loose_iter : list seg; o_strict_iter : list seg; o_inter_iter : list seg;
-                   o_map_tl : list seg; o_mapping : list (seg * list seg) }.
+Definition tpairs := list ((seg * name) * (seg * name)).
+Inductive case :=
+| K (c_eps : Z) (c_t : list seg) (c_other : list seg) (c_sup : sup)
+    (o_coiter : pairs)
+    (o_loose o_strict o_inter : list seg)
+    (o_loose_iter o_strict_iter o_inter_iter : list seg)
+    (o_map_tl : list seg) (o_mapping : list (seg * list seg))
+| KAnnCo (eps : Z) (ra rb : list triple) (obs : tpairs).
 Definition ppeqb := pair_eqb seqb seqb.
 
 Fixpoint dict_sorted_insert (kv : seg * list seg) (d : list (seg * list seg)) :=
@@ -16,22 +19,29 @@ Fixpoint dict_sorted_insert (kv : seg * list seg) (d : list (seg * list seg)) :=
 Definition canon_mapping (d : list (seg * list seg)) : list (seg * list seg) :=
   fold_left (fun acc kv => dict_sorted_insert (fst kv, sl_of (snd kv)) acc) d [].
 
+Definition tp_eqb := pair_eqb (pair_eqb seqb name_eqb) (pair_eqb seqb name_eqb).
 Definition check (c : case) : nat :=
-  let eps := c_eps c in
-  let t := tl_of eps (c_t c) in
-  let o := tl_of eps (c_other c) in
-  let s := match c_sup c with SupSeg x => SupSeg x | SupTl l => SupTl (tl_of eps l) end in
+  match c with
+  | KAnnCo eps ra rb obs =>
+      let a := ann_of eps None None ra in
+      let b := ann_of eps None None rb in
+      if list_eqb tp_eqb obs (co_iter_ann eps a b) then 0%nat else 1%nat
+  | K eps ct cother csup o_coiter o_loose o_strict o_inter o_loose_iter o_strict_iter o_inter_iter o_map_tl o_mapping =>
+  let t := tl_of eps ct in
+  let o := tl_of eps cother in
+  let s := match csup with SupSeg x => SupSeg x | SupTl l => SupTl (tl_of eps l) end in
   let spec_ok :=
-    list_eqb ppeqb (o_coiter c) (co_iter eps t o)
-    && list_eqb seqb (o_loose c) (crop eps t s Loose)
-    && list_eqb seqb (o_strict c) (crop eps t s Strict)
-    && list_eqb seqb (o_inter c) (crop eps t s Inter)
-    && list_eqb seqb (o_map_tl c) (crop eps t s Inter)
-    && list_eqb (pair_eqb seqb (list_eqb seqb)) (canon_mapping (o_mapping c))
+    list_eqb ppeqb o_coiter (co_iter eps t o)
+    && list_eqb seqb o_loose (crop eps t s Loose)
+    && list_eqb seqb o_strict (crop eps t s Strict)
+    && list_eqb seqb o_inter (crop eps t s Inter)
+    && list_eqb seqb o_map_tl (crop eps t s Inter)
+    && list_eqb (pair_eqb seqb (list_eqb seqb)) (canon_mapping o_mapping)
                 (canon_mapping (crop_mapping eps t s)) in
   let model_eq :=
-    list_eqb seqb (o_loose_iter c) (map snd (crop_iter eps t s Loose))
-    && list_eqb seqb (o_strict_iter c) (map snd (crop_iter eps t s Strict))
-    && list_eqb seqb (o_inter_iter c) (map snd (crop_iter eps t s Inter))
-    && list_eqb (pair_eqb seqb (list_eqb seqb)) (o_mapping c) (crop_mapping eps t s) in
-  verdict spec_ok model_eq.
+    list_eqb seqb o_loose_iter (map snd (crop_iter eps t s Loose))
+    && list_eqb seqb o_strict_iter (map snd (crop_iter eps t s Strict))
+    && list_eqb seqb o_inter_iter (map snd (crop_iter eps t s Inter))
+    && list_eqb (pair_eqb seqb (list_eqb seqb)) o_mapping (crop_mapping eps t s) in
+  verdict spec_ok model_eq
+  end.
